@@ -234,7 +234,12 @@ pub fn cmd_eval(file: &str, human: bool) {
                 trace: rep.trace.clone(),
                 steps: rep.steps,
             };
-            println!("EVAL {}", serde_json::to_string(&eo).unwrap());
+            if human {
+                println!("replay ended in a {}: {}", class, eo.violations[0].msg);
+                println!("REPRODUCED property={} class={} (the run cannot return; the outcome is the violation)", prop, class);
+            } else {
+                println!("EVAL {}", serde_json::to_string(&eo).unwrap());
+            }
             let _ = std::io::stdout().flush();
             std::process::exit(if human { 1 } else { 0 });
         }));
